@@ -28,6 +28,10 @@ TRUSTED_BASE = [
 ]
 
 
+class SearchTimeout(BaseException):
+    """raised by the alarm that bounds the extended search (BaseException: guards written as `except Exception` let it pass)"""
+
+
 class Infra(Exception):
     """infrastructure problem: exit 2, never a VIOLATION"""
 
@@ -295,14 +299,44 @@ def _run(ctx, mod, a):
             crashed.append(f"{what} raised:\n{tb[-3000:]}")
             print(f"  evaluation raised an exception ({what}):", tb.strip().splitlines()[-1][:300])
 
-    guarded(mod.run, "harness run")
+    # the run itself is bounded too (a sampler of the code under test that never accepts must not hang the check): exit 2
+    import signal
+
+    def _run_alarm(signum, frame):
+        raise SearchTimeout()
+    run_budget = int(os.environ.get("VERIF_RUN_BUDGET", 2400 if ctx.tier == "quick" else 4 * 3600))
+    old_run_handler = signal.signal(signal.SIGALRM, _run_alarm)
+    signal.alarm(run_budget)
+    try:
+        guarded(mod.run, "harness run")
+    except SearchTimeout:
+        raise Infra(f"harness run exceeded its budget of {run_budget} s")
+    finally:
+        signal.alarm(0)
+        signal.signal(signal.SIGALRM, old_run_handler)
 
     # extended search when the proof or the tie is broken and nothing failed yet
     unlisted = [f for f in ctx.failures if not known.match(pid, f["sig"])]
     if (proof_broken or ctx.disagreements or crashed) and not unlisted and hasattr(mod, "search"):
         ctx.boost = 6
         ctx.notes.append("extended failing-input search (boost 6)")
-        guarded(mod.search, "extended search")
+        # the extended search is best effort: it is cut off after a fixed budget (the verdict is then
+        # `no-failing-input-found` unless something was found before)
+        import signal
+
+        def _alarm(signum, frame):
+            raise SearchTimeout()
+        budget = int(os.environ.get("VERIF_SEARCH_BUDGET", 900 if ctx.tier == "quick" else 3600))
+        old_handler = signal.signal(signal.SIGALRM, _alarm)
+        signal.alarm(budget)
+        try:
+            guarded(mod.search, "extended search")
+        except SearchTimeout:
+            ctx.notes.append(f"extended search cut off after {budget} s")
+            print(f"  extended search cut off after {budget} s")
+        finally:
+            signal.alarm(0)
+            signal.signal(signal.SIGALRM, old_handler)
         unlisted = [f for f in ctx.failures if not known.match(pid, f["sig"])]
     proof_broken = proof_broken + crashed[:2]
 
